@@ -182,6 +182,9 @@ func (m *tableModel) shape(w core.FieldWrite, typ, field string) writeShape {
 	if ip := inlinePush(w.Val); ip != nil && core.IsLoadOfField(ip.list, typ, field) {
 		return shapeBoundedPush
 	}
+	if ip := inPlacePush(w, typ, field); ip != nil {
+		return shapeBoundedPush
+	}
 	if core.IsNilConst(w.Val) {
 		return shapeEmpty
 	}
@@ -300,6 +303,88 @@ type pushSite struct {
 	max      ssa.Value // K
 	removed  ssa.Value // the element read from the last slot (what falls out)
 	newcomer ssa.Value // what is stored at index 0
+}
+
+// inPlacePush recognises the same bounded push-front when it edits the field in place (the
+// shape a method on the owner has): the element store `F[0] = n` (w) is the push when, in the
+// same function, F grows only by `F = append(F, nil)` under len(F) < max, every path to the
+// element store passes the shift `copy(F[1:], F)`, and the last slot is read before. All F are
+// loads of the one field.
+func inPlacePush(w core.FieldWrite, typ, field string) *pushSite {
+	if !w.Element || w.Store == nil {
+		return nil
+	}
+	ia, ok := w.Store.Addr.(*ssa.IndexAddr)
+	if !ok || !core.IsLoadOfField(ia.X, typ, field) {
+		return nil
+	}
+	if k, isK := core.ConstInt(ia.Index); !isK || k != 0 {
+		return nil
+	}
+	isF := func(v ssa.Value) bool { return core.IsLoadOfField(v, typ, field) }
+	ps := &pushSite{newcomer: w.Store.Val}
+	var shift ssa.Instruction
+	grows := 0
+	for _, b := range w.Fn.Blocks {
+		for _, in := range b.Instrs {
+			switch x := in.(type) {
+			case *ssa.Store:
+				if t, f, _, okF := core.FieldRef(x.Addr); okF && t == typ && f == field {
+					sl, el, isApp := core.AppendOf(x.Val)
+					if !isApp || !isF(sl) {
+						if isShrinkCall(x.Val) || core.IsNilConst(x.Val) {
+							continue
+						}
+						return nil // some other write to the field in this function
+					}
+					els := core.VariadicElems(el)
+					if len(els) != 1 || !core.IsNilConst(els[0]) {
+						return nil
+					}
+					grows++
+					room := core.AnyFact(func(fc core.Fact) bool {
+						return core.CmpFact(fc, func(op token.Token, a, c ssa.Value) bool {
+							if op == token.LSS && core.IsLenOf(a, isF) {
+								ps.max = c
+								return true
+							}
+							return false
+						})
+					})
+					if core.InstrGuarded(x, room, nil) != nil {
+						return nil
+					}
+				}
+			case *ssa.Call:
+				if core.CalleeID(x) == "builtin.copy" {
+					if sl, isSl := x.Call.Args[0].(*ssa.Slice); isSl && isF(sl.X) && isF(x.Call.Args[1]) {
+						if k, isK := core.ConstInt(sl.Low); isK && k == 1 && sl.High == nil {
+							shift = x
+						}
+					}
+				}
+			case *ssa.UnOp:
+				if ia2, isIa := x.X.(*ssa.IndexAddr); isIa && x.Op == token.MUL && isF(ia2.X) {
+					if bo, isBo := ia2.Index.(*ssa.BinOp); isBo && bo.Op == token.SUB && core.IsLenOf(bo.X, isF) {
+						if k, isK := core.ConstInt(bo.Y); isK && k == 1 {
+							ps.removed = x
+						}
+					}
+				}
+			}
+		}
+	}
+	if shift == nil || grows != 1 || ps.max == nil || ps.removed == nil {
+		return nil
+	}
+	if core.MustPassBefore(w.Store, func(in ssa.Instruction) bool { return in == shift }) != nil {
+		return nil
+	}
+	// the last slot is read before the shift overwrites it
+	if ri, ok := ps.removed.(ssa.Instruction); !ok || core.MustPassBefore(shift, func(in ssa.Instruction) bool { return in == ri }) != nil {
+		return nil
+	}
+	return ps
 }
 
 func inlinePush(v ssa.Value) *pushSite {
